@@ -17,6 +17,15 @@ CHECKS = {
  "C17": dict(design="5/C17", technique="TLA+ IRMachine spec; TLC runs loop nests before/after the real loop-restructuring passes for all oracles; contract SameEffects",
    text="TLC executes each loop nest and the output of the real pipeline-canonicalize-for / reuse-memref-allocs (3 pipelines) for every oracle (dynamic bounds/steps incl. zero-trip) and requires the same sequence of side-effecting operations with the same evaluated index/size operands; memrefs are observed as interned descriptors (alloc type+sizes, subview offsets/sizes/strides).",
    note="Bounded: generated nests depth<=3; affine.min tile sizes are not interpreted (cases skipped, counted)."),
+ "C10": dict(design="5/C10", technique="TLA+ Layout/Affine spec as the single meaning of a TSL; every view exported from the real code compared by TLC on every index of the box",
+   text="For each layout (exhaustive small space + random up to rank 4, depth 3, offsets, unit bounds, repeated steps, dynamic entries) the harness exports what the real code says - get_affine_map tree, all_values, self_overlaps, is_dense, canonicalize (twice), print->parse, from_strides, largest_common_contiguous_block - and TLC (ObjCheck.tla) compares each with Layout.tla's Addr on every index of the layout's box.",
+   note="Offset-free address function is what the views share (offset is carried by text/canonicalize/from_strides and checked there); bound/step op generation and subview pointer arithmetic are exercised through C05/C11 instead."),
+ "C03": dict(design="5/C03", technique="TLA+ Schedule spec: exhaustive TLC design check of Rotate/Tile/AddDim/DropUnit (IterSpacePreserved), TLC-simulated behaviours replayed on real Schedule objects, real scheduler_backtrack traces validated step by step against the spec",
+   text="Schedule.tla defines the elementary transformations and the iteration multiset IterBag. (1) MC_Schedule.cfg: TLC explores all action sequences from all small schedules (668k states) - the definitions preserve IterBag. (2) spec->code: TLC -simulate behaviours (history variable printed as JSON) are replayed on the real Schedule API and the projected state compared after every behaviour. (3) code->spec: every schedule yielded by the real scheduler_backtrack is recorded as a trace of rotate/tile steps (wrapped methods) and TLC validates each step as the spec action (incl. the Tile divisibility guard) and IterBag(final) = IterBag(input).",
+   note="Boxes <= 128 points (templates are small stand-ins of the 8x8x8 array with identical patterns)."),
+ "C16": dict(design="5/C16", technique="TLA+ Template spec (row-space equality by exact integer elimination, Fits, constraint predicates) evaluated by TLC on every schedule yielded by the real scheduler and on matcher inputs",
+   text="On every schedule the real scheduler_backtrack yields (all results): Fits(template, schedule) (same index subspace per operand on the innermost dims, bounds within template bounds) and the requested constraints (pure output stationary, memory flexibility) as Template.tla defines them; plus TemplatePattern.matches(sp) <=> PatMatches (row-space equality) on random integer patterns.",
+   note="The real matcher is floating-point SVD (tol 1e-10); equivalence is claimed for integer entries in -2..3."),
 }
 NA_REASON = "check not built yet in this round (planned: see DESIGN.md section 5); will be claimed once its TLA+ module and binding exist"
 def main():
